@@ -47,7 +47,7 @@ package fsnotify
 //@   ensures  RingInv(w)                                                                    [C11 C07]
 //@   ensures  old(dupCookie) ==> dupCookie
 //@   ensures  cookie != 0 && mask & unix.IN_MOVED_FROM != 0 ==> e.renamedFrom == "" &&
-//@              w.cookies[old(w.cookieIndex)] == koekje{cookie, name} &&
+//@              w.cookies[old(w.cookieIndex)] == koekje{cookie: cookie, path: name} &&
 //@              forall(s, uint8, s < 10 && s != old(w.cookieIndex) ==> w.cookies[s] == old(w.cookies[s])) &&
 //@              w.cookieIndex == ite(old(w.cookieIndex) == 9, 0, old(w.cookieIndex) + 1) &&
 //@              seenFrom == setAdd(old(seenFrom), cookie) && lastFrom == set(old(lastFrom), cookie, name)    [C11] "a move-out stores its cookie and old name in the next ring slot"
